@@ -1067,8 +1067,13 @@ fn c02_c03_match(tc: &TransCtx, sink: &mut Sink) {
         Outcome::Refused(_) | Outcome::Aborted => {
             if !r.failed.is_empty() {
                 sink.c("C03/refused-ineligible");
+                if r.failed.len() == 1 {
+                    // the request violates exactly this one condition: the refusal exercises it alone
+                    sink.cs(format!("C03/refused-solely-because/{}", r.failed[0]));
+                }
                 return;
             }
+            sink.c("C03/eligible-request-judged-for-converse");
             c03_converse(tc, &r, sink, false);
         }
     }
@@ -1586,7 +1591,12 @@ fn c07_admission(tc: &TransCtx, sink: &mut Sink) {
         (Outcome::Aborted, Some(true)) => {
             sink.v("C07", format!("C07/{kind}/well-formed-funded-order-refused/panic"), "panic".into());
         }
-        (_, Some(false)) => sink.cs(format!("C07/{kind}/refused-ill-formed")),
+        (_, Some(false)) => {
+            sink.cs(format!("C07/{kind}/refused-ill-formed"));
+            if failed.len() == 1 {
+                sink.cs(format!("C07/{kind}/refused-solely-because/{}", failed[0]));
+            }
+        }
     }
 }
 
